@@ -356,8 +356,17 @@ impl Property for C19 {
     }
     fn strategy(&self, _tier: Tier) -> BoxedStrategy<Case> {
         let line = (vec(line_piece(), 0..8), prop_oneof![4 => Just(0u8), 2 => Just(1u8)]).prop_map(|(pieces, eol)| Line { pieces, eol });
-        (0u8..N_WORLDS as u8, vec(line, 1..=6), 0u8..3, any::<bool>(), prop::bool::weighted(0.3), prop_oneof![3 => Just(0u8), 2 => Just(1u8), 1 => Just(2u8)], any::<bool>())
-            .prop_map(|(world, mut lines, mode, all, wakati, split, final_nl)| {
+        // a filler line that puts its own line end on / next to a multiple of the 8 KiB block the tool reads in
+        let filler = prop::option::weighted(0.2, (1usize..=3, -2i32..=2, proptest::sample::select(vec!["a", "あ", "a。"]), prop_oneof![1 => Just(0u8), 3 => Just(1u8)], 0usize..3));
+        (0u8..N_WORLDS as u8, vec(line, 1..=6), 0u8..3, any::<bool>(), prop::bool::weighted(0.3), prop_oneof![3 => Just(0u8), 2 => Just(1u8), 1 => Just(2u8)], any::<bool>(), filler)
+            .prop_map(|(world, mut lines, mode, all, wakati, split, final_nl, filler)| {
+                if let Some((k, d, unit, eol, at)) = filler {
+                    // the filler is the first line, so its own line end lands exactly where asked
+                    let (at, before) = (0usize * at, 0usize);
+                    let target = (8192 * k) as i64 - 1 + d as i64 - before as i64;
+                    let n = (target.max(1) as usize) / unit.len();
+                    lines.insert(at, Line { pieces: vec![Piece::Rep(unit.to_string(), n as u32), Piece::Rep("x".into(), (target.max(1) as usize - n * unit.len()) as u32)], eol });
+                }
                 if !final_nl {
                     if let Some(l) = lines.last_mut() {
                         l.eol = 2;
